@@ -19,6 +19,25 @@ What is tied to the source how:
   validated by correspondence only
     float rounding, the Kaiser-Bessel kernel values, numba's compilation of the loop nests, numpy's reshape keeping
     row-major data (the Python list semantics the generated wrappers are written in is Model/C07Py.lean)
+
+Hand-over variants (add_variant).  The documented sum is a function of the *values* of data, coordinates, width and param;
+every stream therefore also varies how those values are handed to sigpy, with the expected result unchanged:
+  coordinate dtype float64 | float32 | int64 | int32 | int16 (only with coordinates, widths and params that are exactly
+  representable in that dtype - sigpy casts width/param to coord.dtype, see the separately keyed class below);
+  data dtype float64/complex128 | float32/complex64 (compared at 2e-5) | int64/int32 (order-0 spline only: all weights 0/1,
+  so the sum is an integer at every accumulation step); data or coordinates C-ordered | Fortran-ordered | a strided view of a
+  larger buffer | a negative-stride view; data scaled by 2^-900 .. 2^400 (exact, undone before comparing); width/param as
+  Python or numpy scalars (float64, float32, int64), list | tuple | ndarray; gridding's shape as list | tuple; entry points
+  function | Linop | adjoint of the dual Linop | one Linop object applied twice with a second live Linop and a function
+  call with other parameters in between (both applications must agree bitwise).
+Search-only input classes:
+  samples on the edge of the support (gen_raster_case): widths with one/two decimals and coordinates on a decimal raster
+  aimed at c +- W/2 = integer, and exact ties moved by one ulp.  A tap whose exact distance to the edge is non-zero but
+  below 4 ulp cannot be decided by float arithmetic: the oracle accepts it either way (excluded, or included with K(+-1)),
+  consistently over the whole output, but never a non-finite value or any other weight.  [The unchanged code itself
+  includes such taps, e.g. W=1.4, c=0.3, i=1: fl(0.3+0.7) ... |fl(1-0.3)/0.7| = 1.0 although |1 - 0.3| > 0.7 exactly.]
+  key C07:int-coord-dtype:fractional-width-or-param - integer-dtype coordinates with a fractional width / beta;
+  key C07:coord-magnitude>=2^31 - coordinates 2^31 .. 2^40 grid units away (the generic "very far" class stays below 2^31).
 """
 import itertools
 import json
@@ -122,14 +141,36 @@ def parse_entries(r, tagged=False):
 
 
 # ---- case generation ----------------------------------------------------------------------------
-WIDTHS = [Fraction(1), Fraction(2), Fraction(3), Fraction(4), Fraction(5, 2)]
-DYADIC_WIDTHS = [Fraction(1), Fraction(2), Fraction(4)]
+WIDTHS = [Fraction(1), Fraction(2), Fraction(3), Fraction(4), Fraction(5, 2),
+          Fraction(1, 2), Fraction(3, 2), Fraction(7, 2), Fraction(5), Fraction(6)]
+DYADIC_WIDTHS = [Fraction(1), Fraction(2), Fraction(4), Fraction(1, 2)]
+INT_WIDTHS = [Fraction(w) for w in (1, 2, 3, 4, 5, 6)]  # representable in an integer coordinate dtype
 BETAS = [0.0, 1.0, 2.34, 7.0, 9.14, 13.855]
+BETAS_F32 = [0.0, 1.0, 2.5, 7.0, 9.125, 13.875]  # exactly representable in float32
+BETAS_INT = [0, 1, 2, 7, 9, 14]
+VFAR_MAXK = 27  # "very far" coordinates stay below 2^31 (n <= 6); beyond that see search step 5
+INT_RANGE = {"int16": 2 ** 15 - 64, "int32": 2 ** 31 - 64, "int64": 2 ** 62}
+SINGLE = ("float32", "complex64")
+INTDATA = ("int64", "int32")
 
 
-def gen_coord(rng, n, exact):
-    """one coordinate component for a grid axis of length n: the classes named by the property"""
-    kind = rng.choice(["frac", "frac", "int", "half", "neg", "far", "edge"])
+def gen_coord(rng, n, exact, integer=False):
+    """one coordinate component for a grid axis of length n: the classes named by the property.
+    integer=True: integer-valued positions only (they can then be handed over in an integer dtype)."""
+    if integer:
+        kind = rng.choice(["int", "int", "neg", "far", "edge", "vfar"])
+        if kind == "int":
+            v = rng.randint(-1, n)
+        elif kind == "neg":
+            v = -rng.randint(1, n + 2)
+        elif kind == "far":
+            v = rng.choice([-1, 1]) * rng.randint(3 * n, 40 * n + 8)
+        elif kind == "edge":
+            v = rng.choice([0, n - 1, n, -1])
+        else:
+            v = rng.choice([-1, 1]) * (n * 2 ** rng.randint(10, VFAR_MAXK) + rng.randint(0, n))
+        return kind, Fraction(v)
+    kind = rng.choice(["frac", "frac", "frac", "int", "int", "half", "half", "neg", "neg", "far", "far", "edge", "edge", "vfar"])
     if kind == "int":
         v = Fraction(rng.randint(-1, n))
     elif kind == "half":
@@ -138,6 +179,8 @@ def gen_coord(rng, n, exact):
         v = -Fraction(rng.randint(1, 8 * n + 8), 8)
     elif kind == "far":
         v = Fraction(rng.choice([-1, 1]) * rng.randint(8 * 3 * n, 8 * 40 * n + 64), 8)
+    elif kind == "vfar":  # still exactly representable: n * 2^k + j/8
+        v = Fraction(rng.choice([-1, 1]) * (8 * n * 2 ** rng.randint(10, VFAR_MAXK) + rng.randint(0, 8 * n)), 8)
     elif kind == "edge":
         v = Fraction(rng.choice([0, 8 * n - 8, 8 * n - 4, 8 * n, -4]), 8)
     else:
@@ -147,8 +190,18 @@ def gen_coord(rng, n, exact):
     return kind, v
 
 
-def gen_case(rng, kernel=None, exact=True, small=False, dyadic=None):
+def f32_exact(v):
+    return Fraction(float(np.float32(float(v)))) == Fraction(v)
+
+
+def gen_case(rng, kernel=None, exact=True, small=False, dyadic=None, cmode=None):
+    """cmode: how the coordinate array is handed over - "f64" (float64), "f32" (float32, all values exactly representable),
+    "int" (integer dtype, integer positions, integer widths / params so that every argument is representable in it)."""
     nd = rng.choice([1, 1, 2, 2, 3])
+    if cmode is None:
+        cmode = rng.choice(["f64"] * 13 + ["int"] * 4 + ["f32"] * 3)
+    if cmode != "f64":
+        exact = True
     hi = 4 if (small or nd == 3) else 6
     grid = [rng.choice([1, 2, 3, 4, 5, 6][:hi]) for _ in range(nd)]
     if rng.random() < 0.25:
@@ -163,7 +216,9 @@ def gen_case(rng, kernel=None, exact=True, small=False, dyadic=None):
     for j in range(npts):
         row = []
         for d in range(nd):
-            k, v = gen_coord(rng, grid[d], exact)
+            k, v = gen_coord(rng, grid[d], exact, integer=(cmode == "int"))
+            if cmode == "f32" and not f32_exact(v):
+                k, v = "int", Fraction(rng.randint(-1, grid[d]))
             kinds.append(k)
             row.append(v)
         coord.append(row)
@@ -173,10 +228,14 @@ def gen_case(rng, kernel=None, exact=True, small=False, dyadic=None):
         if rng.random() < 0.5:  # same cell through the wrap
             d = rng.randrange(nd)
             coord[b][d] = coord[a][d] + grid[d] * rng.choice([-2, -1, 1, 3])
+            if cmode == "f32" and not f32_exact(coord[b][d]):
+                coord[b][d] = coord[a][d]
         kinds.append("dup")
     if dyadic is None:
         dyadic = rng.random() < 0.6
     wpool = DYADIC_WIDTHS if (dyadic and kernel == "spline") else WIDTHS
+    if cmode == "int":
+        wpool = [w for w in wpool if w.denominator == 1] if (dyadic and kernel == "spline") else INT_WIDTHS
     if not exact and rng.random() < 0.3:
         wpool = wpool + [Fraction(rng.uniform(0.6, 5.0))]
     if rng.random() < 0.5:
@@ -193,20 +252,106 @@ def gen_case(rng, kernel=None, exact=True, small=False, dyadic=None):
             if nd >= 2 and len(set(map(tuple, param[1]))) == 1:
                 param[1][0] = q_of((param[1][1][0] + 1) % 3)
     else:
+        betas = {"f64": BETAS, "f32": BETAS_F32, "int": BETAS_INT}[cmode]
         if rng.random() < 0.6:
-            param = ["s", q_of(rng.choice(BETAS))]
+            param = ["s", q_of(rng.choice(betas))]
         else:
-            param = ["l", [q_of(rng.choice(BETAS)) for _ in range(nd)]]
+            param = ["l", [q_of(rng.choice(betas)) for _ in range(nd)]]
     op = rng.choice(["interp", "grid"])
     cplx = rng.random() < 0.5
-    return dict(op=op, nd=nd, batch=batch, grid=grid, pts=pts, kernel=kernel, cplx=cplx,
-                coord=[q_of(v) for row in coord for v in row], width=width, param=param,
-                int_args=rng.random() < 0.3, kinds=sorted(set(kinds)))
+    c = dict(op=op, nd=nd, batch=batch, grid=grid, pts=pts, kernel=kernel, cplx=cplx,
+             coord=[q_of(v) for row in coord for v in row], width=width, param=param,
+             int_args=rng.random() < 0.3, kinds=sorted(set(kinds)))
+    add_variant(rng, c, cmode)
+    return c
+
+
+def add_variant(rng, c, cmode="f64"):
+    """how the same mathematical request is handed to sigpy: coordinate dtype, data dtype, memory layout of both arrays,
+    magnitude of the data, Python type of width / param, list|tuple for gridding's shape.  None of these is part of the
+    documented sum, so the expected result does not depend on them."""
+    nd = c["nd"]
+    vals = [fr(q) for q in c["coord"]]
+    c["cdtype"] = "float64"
+    if cmode == "int" and all(v.denominator == 1 for v in vals):
+        m = max([0] + [abs(int(v)) for v in vals])
+        pool = ["int64"] + (["int32"] if nd <= 2 else []) + (["int16"] if nd == 1 else [])
+        pool = [t for t in pool if m < INT_RANGE[t]]
+        c["cdtype"] = rng.choice(pool)
+    elif cmode == "f32" and all(f32_exact(v) for v in vals):
+        c["cdtype"] = "float32"
+    plain = c["cdtype"] == "float64"
+    r = rng.random()
+    if plain and nd <= 2 and r < 0.16:  # one non-default thing at a time keeps the number of numba signatures bounded
+        c["xlayout"] = rng.choice(["F", "strided", "neg"])
+    elif plain and nd <= 2 and r < 0.32:
+        c["clayout"] = rng.choice(["F", "strided", "neg"])
+    elif plain and nd <= 2 and r < 0.44:
+        if c["kernel"] == "spline" and not c["cplx"] and rng.random() < 0.35:
+            c["xdtype"] = rng.choice(INTDATA)
+            c["param"] = ["s", q_of(0)]  # order 0: every weight is 0 or 1, the documented sum is an integer at every step
+        else:
+            c["xdtype"] = "complex64" if c["cplx"] else "float32"
+    if c.get("xdtype") is None and rng.random() < 0.12:
+        c["xscale"] = rng.choice([-900, -60, 60, 400])
+    c["argform"] = rng.choice(["py", "py", "np", "np32", "arr"])
+    c["shape_tuple"] = rng.random() < 0.5
+
+
+def gen_raster_case(rng):
+    """search only: widths given to one or two decimals and coordinates on a decimal raster, or one ulp beside an exact
+    tie: c +- W/2 then falls within a rounding error of a grid index (the sample sits (just) on the edge of the support)."""
+    nd = rng.choice([1, 1, 2, 3])
+    grid = [rng.choice([1, 2, 3, 5, 7, 9][: (4 if nd == 3 else 6)]) for _ in range(nd)]
+    kernel = rng.choice(["kaiser_bessel", "kaiser_bessel", "spline"])
+    style = rng.choice(["decimal", "decimal", "ulp"])
+    if style == "decimal":
+        wden = rng.choice([10, 10, 10, 100, 5, 20])
+        ws = [Fraction(rng.randint(max(1, wden // 4), 6 * wden), wden) for _ in range(nd)]
+    else:
+        ws = [rng.choice(WIDTHS) for _ in range(nd)]
+    if rng.random() < 0.5:
+        ws = [ws[0]] * nd
+    pts = rng.choice([[1], [2], [3], [4], [2, 2]])
+    npts = int(np.prod(pts))
+    coord = []
+    directed = set(rng.sample(range(npts * nd), min(npts * nd, rng.choice([1, 1, 2, 3]))))  # few, so that the oracle can enumerate
+    for j in range(npts):
+        for d in range(nd):
+            n, w = grid[d], ws[d]
+            i = rng.randint(-2 * n - 2, 3 * n + 2)
+            sgn = rng.choice([-1, 1])
+            if j * nd + d not in directed:
+                if style == "decimal":
+                    v = float(Fraction(rng.randint(-20 * n, 40 * n), rng.choice([20, 10, 100])))
+                else:
+                    v = float(gen_coord(rng, n, True)[1])
+            elif style == "decimal":
+                if rng.random() < 0.85:
+                    v = float(i + sgn * w / 2)  # the decimal tie; as doubles usually a near-tie
+                else:
+                    v = float(Fraction(rng.randint(-20 * n, 40 * n), rng.choice([20, 10, 100])))
+            else:
+                v = float(i + sgn * w / 2)  # exactly representable: an exact tie ...
+                if rng.random() < 0.8:
+                    v = float(np.nextafter(v, rng.choice([-np.inf, np.inf])))  # ... moved by one ulp
+            coord.append(q_of(Fraction(v)))
+    wq = [q_of(Fraction(float(w))) for w in ws]
+    width = ["s", wq[0]] if len(set(map(tuple, wq))) == 1 and rng.random() < 0.7 else ["l", wq]
+    if kernel == "spline":
+        param = ["s", q_of(rng.choice([0, 0, 1, 2]))] if rng.random() < 0.6 else ["l", [q_of(rng.choice([0, 1, 2])) for _ in range(nd)]]
+    else:
+        param = ["s", q_of(rng.choice(BETAS))] if rng.random() < 0.6 else ["l", [q_of(rng.choice(BETAS)) for _ in range(nd)]]
+    c = dict(op=rng.choice(["interp", "grid"]), nd=nd, batch=rng.choice([[], [], [2]]), grid=grid, pts=pts, kernel=kernel,
+             cplx=rng.random() < 0.5, coord=coord, width=width, param=param, int_args=False,
+             kinds=["near-tie:" + style], cdtype="float64", argform="py", shape_tuple=False)
+    c["readable"] = dict(coord=[float(fr(q)) for q in coord], width=[float(fr(q)) for q in wq])  # for the human reader of a replay
+    return c
 
 
 def all_dyadic(c):
     """every weight of the spline is a dyadic rational with few bits: exact comparison is meaningful"""
-    if c["kernel"] != "spline":
+    if c["kernel"] != "spline" or c.get("xdtype") in SINGLE:
         return False
     ws = [c["width"][1]] if c["width"][0] == "s" else c["width"][1]
     def p2(q):
@@ -216,6 +361,11 @@ def all_dyadic(c):
         d = fr(q).denominator
         return d & (d - 1) == 0 and d <= 64
     return all(p2(w) for w in ws) and all(dy(q) for q in c["coord"])
+
+
+def cmp_tol(c):
+    """relative tolerance of the non-exact comparisons: float64 accumulation, or a single-precision output buffer"""
+    return 2e-5 if c.get("xdtype") in SINGLE else 1e-10
 
 
 def in_shape(c):
@@ -232,42 +382,141 @@ def gen_data(rng, c):
 
 
 def np_data(c, x):
+    """the *logical* input (float64 / complex128, C order); run_impl dresses it in the case's dtype / layout / magnitude"""
     a = np.array([complex(p, q) for p, q in x]) if c["cplx"] else np.array([float(p) for p, q in x])
     return a.reshape(in_shape(c))
 
 
+def with_layout(a, layout):
+    """an array with the same shape and values as `a` in the requested memory layout"""
+    a = np.ascontiguousarray(a)
+    if layout in (None, "C") or a.ndim == 0:
+        return a
+    if layout == "F":
+        return np.asfortranarray(a)
+    if layout == "strided":  # every second element of a larger buffer, along every axis
+        big = np.full([2 * n + 1 for n in a.shape], 77, dtype=a.dtype)
+        view = big[tuple(slice(1, 2 * n + 1, 2) for n in a.shape)]
+        view[...] = a
+        return view
+    if layout == "neg":  # negative strides along every axis
+        rev = tuple(slice(None, None, -1) for _ in a.shape)
+        return np.ascontiguousarray(a[rev])[rev]
+    raise ValueError(layout)
+
+
+def dress(c, x):
+    """logical input -> the array handed to sigpy (dtype, power-of-two magnitude, memory layout)"""
+    x = np.asarray(x)
+    e = c.get("xscale") or 0
+    if e:
+        x = x * (2.0 ** e)  # exact
+    xd = c.get("xdtype")
+    if xd in INTDATA:
+        x = np.rint(x.real).astype(xd)
+    elif xd in SINGLE:
+        x = x.astype("complex64" if np.iscomplexobj(x) else "float32")
+    return with_layout(x, c.get("xlayout"))
+
+
+def undress(c, y):
+    e = c.get("xscale") or 0
+    y = np.asarray(y)
+    return y * (2.0 ** -e) if e else y
+
+
 def py_arg(c, v, as_param=False):
     """the Python value handed to sigpy for width / param"""
+    form = c.get("argform", "py")
     def one(q):
         f = fr(q)
         if c["int_args"] and f.denominator == 1:
-            return int(f)
+            return np.int64(int(f)) if form == "np" else int(f)
+        if form == "np":
+            return np.float64(float(f))
+        if form == "np32" and f32_exact(f):
+            return np.float32(float(f))
         return float(f)
     if v[0] == "s":
         return one(v[1])
     vals = [one(q) for q in v[1]]
+    if form == "arr":
+        return np.array(vals)
     return tuple(vals) if c["int_args"] else vals
 
 
 def np_coord(c):
-    return np.array([float(fr(q)) for q in c["coord"]], dtype=np.float64).reshape(c["pts"] + [c["nd"]])
+    vals = [fr(q) for q in c["coord"]]
+    dt = c.get("cdtype", "float64")
+    if dt.startswith("int"):
+        a = np.array([int(v) for v in vals], dtype=dt)
+    else:
+        a = np.array([float(v) for v in vals], dtype=np.float64).astype(dt)
+    return with_layout(a.reshape(c["pts"] + [c["nd"]]), c.get("clayout"))
+
+
+class StateError(Exception):
+    pass
+
+
+def alt_kw(c, kw):
+    """another valid parameter set (for the second live operator / the parameter sweep)"""
+    def bump(v, f):
+        if np.isscalar(v):
+            return f(v)
+        return [f(t) for t in v]
+    k2 = dict(kw)
+    k2["width"] = bump(kw["width"], lambda t: type(t)(t + 1))
+    if c["kernel"] == "spline":
+        k2["param"] = bump(kw["param"], lambda t: type(t)((int(t) + 1) % 3))
+    else:
+        k2["param"] = bump(kw["param"], lambda t: type(t)(t + 1))
+    return k2
 
 
 def run_impl(c, x, via_linop=False, op=None):
+    """x: logical input.  via_linop: False = sp.interpolate / sp.gridding, True = linop.Interpolate / linop.Gridding,
+    "H" = the adjoint of the *other* Linop, "seq" = one Linop object applied, then a second live Linop with other
+    parameters and a function call with other parameters, then the first object again (both applications must agree)."""
     import sigpy as sp
     from sigpy import linop
     op = op or c["op"]
     coord = np_coord(c)
     kw = dict(kernel=c["kernel"], width=py_arg(c, c["width"]), param=py_arg(c, c["param"]))
     gshape = c["batch"] + c["grid"]
-    x = x.copy()
+    if c.get("shape_tuple"):
+        gshape = tuple(gshape)
+    x = dress(c, np.array(x, copy=True))
+    I, Gr = linop.Interpolate, linop.Gridding
+    if via_linop == "H":
+        A = (Gr(gshape, coord, **kw) if op == "interp" else I(gshape, coord, **kw)).H
+        return undress(c, A(x))
+    if via_linop == "seq":
+        k2 = alt_kw(c, kw)
+        A = (I if op == "interp" else Gr)(gshape, coord, **kw)
+        B = (I if op == "interp" else Gr)(gshape, coord, **k2)
+        y0 = np.array(A(x), copy=True)
+        B(x)
+        if op == "interp":
+            sp.interpolate(x, coord, **k2)
+        else:
+            sp.gridding(x, coord, gshape, **k2)
+        y1 = A(x)
+        if y0.shape != y1.shape or not np.array_equal(y0, y1, equal_nan=True):
+            raise StateError("second application of the same Linop differs from the first: %r vs %r" % (y0.ravel()[:6], y1.ravel()[:6]))
+        return undress(c, y1)
     if op == "interp":
         if via_linop:
-            return linop.Interpolate(gshape, coord, **kw)(x)
-        return sp.interpolate(x, coord, **kw)
+            return undress(c, I(gshape, coord, **kw)(x))
+        return undress(c, sp.interpolate(x, coord, **kw))
     if via_linop:
-        return linop.Gridding(gshape, coord, **kw)(x)
-    return sp.gridding(x, coord, gshape, **kw)
+        return undress(c, Gr(gshape, coord, **kw)(x))
+    return undress(c, sp.gridding(x, coord, gshape, **kw))
+
+
+def vsig(c):
+    """the hand-over variant of a case (part of what makes two explored cases distinct)"""
+    return tuple(c.get(k) for k in ("cdtype", "xdtype", "xlayout", "clayout", "xscale", "argform", "shape_tuple", "int_args"))
 
 
 def model_line(c, x=None, what=None):
@@ -300,6 +549,16 @@ def cnt(ctx, c):
         ctx.count("grid:length-1-axis")
     if c["batch"]:
         ctx.count("batch:%d-d" % len(c["batch"]))
+    ctx.count("coord-dtype:" + c.get("cdtype", "float64"))
+    if c.get("xdtype"):
+        ctx.count("data-dtype:" + c["xdtype"])
+    if c.get("xlayout"):
+        ctx.count("data-layout:" + c["xlayout"])
+    if c.get("clayout"):
+        ctx.count("coord-layout:" + c["clayout"])
+    if c.get("xscale"):
+        ctx.count("data-magnitude:2^%d" % c["xscale"])
+    ctx.count("arg-form:" + c.get("argform", "py") + ("+int" if c["int_args"] else ""))
 
 
 def to_frac_array(a):
@@ -343,10 +602,11 @@ def _values_stream(ctx, cases, stream):
     for (c, x), ln, r in zip(meta, lines, replies):
         model = parse_values(r)
         exact = all_dyadic(c)
-        for via in (False, True):
+        for via in (False, True, ctx.rng.choice(["H", "seq"])):
             cnt(ctx, c)
-            ctx.count("compare:" + ("exact" if exact else "1e-10"))
-            ctx.case((ln, via), sample=dict(line=ln[:300], reply=r[:160], via_linop=via) if ctx.evaluations % 61 == 0 else None)
+            ctx.count("entry:" + {False: "function", True: "Linop", "H": "adjoint-of-dual-Linop", "seq": "Linop-reused-interleaved"}[via])
+            ctx.count("compare:" + ("exact" if exact else "%g" % cmp_tol(c)))
+            ctx.case((ln, via, vsig(c)), sample=dict(line=ln[:300], reply=r[:160], via_linop=via, variant=vsig(c)) if ctx.evaluations % 61 == 0 else None)
             try:
                 y = run_impl(c, np_data(c, x), via_linop=via)
                 impl = (list(y.shape), to_frac_array(y))
@@ -358,7 +618,8 @@ def _values_stream(ctx, cases, stream):
                     ok = model[1] == impl[1]
                 else:
                     mx = max([1.0] + [abs(float(a)) + abs(float(b)) for a, b in model[1]])
-                    ok = all(abs(float(a - p)) <= 1e-10 * mx and abs(float(b - q)) <= 1e-10 * mx
+                    rt = cmp_tol(c)
+                    ok = all(abs(float(a - p)) <= rt * mx and abs(float(b - q)) <= rt * mx
                              for (a, b), (p, q) in zip(model[1], impl[1]))
             if not ok:
                 bad += 1
@@ -411,7 +672,7 @@ def _matrix_stream(ctx, cases, stream):
         tagged = c["kernel"] != "spline"
         parsed = parse_entries(r, tagged)
         cnt(ctx, c)
-        ctx.case(("matrix", ln), sample=dict(line=ln[:300], reply=r[:160]) if ctx.evaluations % 37 == 0 else None)
+        ctx.case(("matrix", ln, vsig(c)), sample=dict(line=ln[:300], reply=r[:160]) if ctx.evaluations % 37 == 0 else None)
         try:
             A = impl_matrix(c)
         except Exception as e:  # noqa
@@ -426,8 +687,8 @@ def _matrix_stream(ctx, cases, stream):
                     ok = np.array_equal(M, A)
                     ctx.count("matrix:exact")
                 else:
-                    ok = bool(np.all(np.abs(M - A) <= 1e-10 * max(1.0, np.abs(M).max())))
-                    ctx.count("matrix:1e-10")
+                    ok = bool(np.all(np.abs(M - A) <= cmp_tol(c) * max(1.0, np.abs(M).max())))
+                    ctx.count("matrix:%g" % cmp_tol(c))
             Mdesc = None if M is None else M.round(12).tolist()
         if not ok:
             bad += 1
@@ -441,7 +702,7 @@ def _matrix_stream(ctx, cases, stream):
                 same = B.shape == A.T.shape and np.array_equal(B, A.T)
             except Exception:  # noqa
                 same = False
-            ctx.case(("transpose", ln))
+            ctx.case(("transpose", ln, vsig(c)))
             if not same:
                 bad_t += 1
                 ctx.disagree(stream + ".transpose", dict(case=c, x=None, via_linop=False, transpose=True),
@@ -484,8 +745,12 @@ def _kernel_stream(ctx):
 def correspond(ctx):
     ctx.rule = ("case = (op interp|grid, ndim 1-3, batch shape, grid shape incl. length-1 axes, points shape, kernel, "
                 "coordinates drawn per component from {k/8, integer, half-integer, negative, far outside, grid edge, "
-                "duplicate / wrapped duplicate}, width scalar|per-axis from {1,2,3,4,5/2}, param scalar|per-axis, "
-                "real|Gaussian-integer data, entry point function|Linop); distinct by protocol line + entry point; "
+                "very far (n*2^k + j/8, k<=27), duplicate / wrapped duplicate}, width scalar|per-axis from {1/2,1,3/2,2,5/2,3,7/2,4,5,6}, param scalar|per-axis, "
+                "real|Gaussian-integer data, entry point function|Linop|adjoint of the dual Linop|one Linop reused with a second live Linop "
+                "and a parameter sweep interleaved) x hand-over variant (coordinate dtype float64|float32|int64|int32|int16 with every "
+                "argument representable in it, data dtype float64/complex128|float32/complex64|int (order-0 spline), C|Fortran|"
+                "strided|negative-stride layout of data or coordinates, data scaled by 2^-900..2^400, width/param as Python|numpy "
+                "scalars, list|tuple|ndarray, shape as list|tuple); distinct by protocol line + entry point + variant; "
                 "all are non-trivial (non-empty windows for at least the widths >= 1, labelled integer data)")
     quick = ctx.tier == "quick"
     rng = ctx.rng
@@ -518,7 +783,9 @@ def correspond(ctx):
         "list/slice/reshape semantics they are written in (Model/C07Py.lean), the numpy backend branch `xp == np` only, the "
         "domain guard 1 <= ndim <= 3, ndim <= rank (Model/C07.lean)",
         "numpy reshape of a C-contiguous array keeps the row-major flat data; xp.zeros gives a zero-initialised buffer",
-        "float64 rounding of coordinates/weights is not modelled: exact streams use dyadic data where float arithmetic is exact",
+        "float64 rounding of coordinates/weights is not modelled: exact streams use dyadic data where float arithmetic is exact; "
+        "in the search a tap whose exact distance to the window edge is non-zero and below 4 ulp of the operands is accepted "
+        "either way (excluded, or included with the edge value K(+-1)); non-finite outputs are never accepted",
         "Kaiser-Bessel kernel has no Rat model: its values are measured against scipy.special.i0 by the search oracle (2e-7 relative per factor)",
         "numba compiles the Python loop nests faithfully (range over float bounds truncates integral floats)",
     ]
@@ -541,15 +808,23 @@ def ref_kernel(kernel, u, p):
     return float(i0(p * math.sqrt(max(0.0, 1.0 - u * u))))
 
 
-def reference(c, x):
+AMB_ULPS = 4.0
+
+
+def reference(c, x, flips=frozenset(), amb=None):
     """y[j] = sum_{i : |i_d - c_jd| <= W_d/2 for all d} prod_d K_d((i_d - c_jd)/(W_d/2)) x[i mod n]; gridding = transpose,
-    contributions add.  Window membership is decided in exact rational arithmetic."""
+    contributions add.  Window membership is decided in exact rational arithmetic on the given doubles.
+
+    A tap whose exact distance to the window edge ||i - c| - W/2| is non-zero but below AMB_ULPS ulp of the operands
+    cannot be decided by float arithmetic (c + W/2 rounds onto / off the index): it is recorded in `amb` as (j, d, i)
+    and, when listed in `flips`, taken the other way round (if included, with the edge value K(+-1))."""
     nd, grid = c["nd"], c["grid"]
     W = [fr(c["width"][1])] * nd if c["width"][0] == "s" else [fr(q) for q in c["width"][1]]
     P = [float(fr(c["param"][1]))] * nd if c["param"][0] == "s" else [float(fr(q)) for q in c["param"][1]]
     npts = int(np.prod(c["pts"]))
     B = int(np.prod(c["batch"]))
     co = [fr(q) for q in c["coord"]]
+    eps = Fraction(1, 2 ** 23) if c.get("cdtype") == "float32" else Fraction(1, 2 ** 52)
     xin = np.asarray(x)
     if c["op"] == "interp":
         xin = xin.reshape([B] + grid)
@@ -565,8 +840,16 @@ def reference(c, x):
             lo, hi = math.floor(cj - w / 2) - 1, math.ceil(cj + w / 2) + 1
             lst = []
             for i in range(lo, hi + 1):
-                if abs(i - cj) <= w / 2:
+                delta = abs(i - cj) - w / 2
+                inside = delta <= 0
+                if delta != 0 and abs(delta) <= AMB_ULPS * eps * max(abs(cj), abs(i), w / 2):
+                    if amb is not None:
+                        amb.append((j, d, i))
+                    if (j, d, i) in flips:
+                        inside = not inside
+                if inside:
                     u = float(i - cj) / float(w / 2)
+                    u = max(-1.0, min(1.0, u))
                     lst.append((i % grid[d], ref_kernel(c["kernel"], u, P[d])))
             per_axis.append(lst)
         for combo in itertools.product(*per_axis):
@@ -584,29 +867,63 @@ def reference(c, x):
 
 
 def tolerance(c, scale):
+    if c.get("xdtype") in SINGLE:  # single-precision output buffer: every accumulation rounds at 6e-8
+        return 2e-5 * (1.0 + scale)
     if c["kernel"] == "spline":
         return 1e-12 * (1.0 + scale)
     return 2.5e-7 * c["nd"] * scale + 1e-12 * (1.0 + scale)
 
 
-def check_oracle(ctx, c, x, via, origin):
+def matches(c, got, xa, flips=frozenset(), amb=None):
+    want, scale = reference(c, xa, flips, amb)
+    if list(got.shape) != list(want.shape):
+        return False, want, scale
+    with np.errstate(all="ignore"):
+        ok = bool(np.all(np.abs(got - want) <= tolerance(c, scale)))
+    return ok, want, scale
+
+
+def check_oracle(ctx, c, x, via, origin, key=None):
+    """key: report under this finding key instead of the per-op/kernel one (used for separately tracked input classes)"""
+    def kk(suffix=""):
+        return key or key_of(c, suffix)
     xa = np_data(c, x)
     try:
         got = np.asarray(run_impl(c, xa, via_linop=via))
     except Exception as e:  # a valid request must work
-        ctx.fail(key_of(c, ".raises"), "%s raised %s on a valid request" % (c["op"], type(e).__name__),
+        ctx.fail(kk(".raises"), "%s raised %s on a valid request" % (c["op"], type(e).__name__),
                  dict(case=c, x=x, via_linop=via), observed=repr(e), expected="result", origin=origin)
         return False
-    want, scale = reference(c, xa)
+    amb = []
+    ok, want, scale = matches(c, got, xa, amb=amb)
     if list(got.shape) != list(want.shape):
-        ctx.fail(key_of(c, ".shape"), "%s output shape differs from batch_shape + pts/grid shape" % c["op"],
+        ctx.fail(kk(".shape"), "%s output shape differs from batch_shape + pts/grid shape" % c["op"],
                  dict(case=c, x=x, via_linop=via), observed=list(got.shape), expected=list(want.shape), origin=origin)
         return False
-    err = np.abs(got - want)
-    tol = tolerance(c, scale)
-    if not np.all(err <= tol):
+    if not np.all(np.isfinite(got)):  # finite data, finite weights: never acceptable, whichever way an edge tap is decided
+        k = int(np.argmin(np.isfinite(got).ravel()))
+        ctx.fail(kk(".nonfinite"), "%s (%s) returned a non-finite value for finite input" % (c["op"], c["kernel"]),
+                 dict(case=c, x=x, via_linop=via),
+                 observed=dict(flat_index=k, got=str(got.ravel()[k]), all=[str(v) for v in got.ravel()[:24]]),
+                 expected=dict(want=str(want.ravel()[k]), all=[str(v) for v in want.ravel()[:24]]), origin=origin)
+        return False
+    if not ok and amb:
+        amb = sorted(set(amb))
+        ctx.count("oracle:edge-tap-within-rounding")
+        if len(amb) <= 8:
+            for r in range(1, len(amb) + 1):
+                for sub in itertools.combinations(amb, r):
+                    if matches(c, got, xa, frozenset(sub))[0]:
+                        ctx.count("oracle:edge-tap-decided-by-rounding")
+                        return True
+        else:
+            ctx.count("oracle:too-many-edge-taps-skipped")
+            return True
+    if not ok:
+        err = np.abs(got - want)
+        tol = tolerance(c, scale)
         k = int(np.argmax(err - tol))
-        ctx.fail(key_of(c), "%s (%s) differs from the documented kernel sum" % (c["op"], c["kernel"]),
+        ctx.fail(kk(), "%s (%s) differs from the documented kernel sum" % (c["op"], c["kernel"]),
                  dict(case=c, x=x, via_linop=via),
                  observed=dict(flat_index=k, got=str(got.ravel()[k]), all=[str(v) for v in got.ravel()[:24]]),
                  expected=dict(want=str(want.ravel()[k]), tol=float(tol.ravel()[k]), all=[str(v) for v in want.ravel()[:24]]),
@@ -641,10 +958,14 @@ def check_kb_function(ctx, origin):
     ok = True
     for beta in BETAS + [ctx.rng.uniform(0, 25) for _ in range(6)]:
         for u in [-1.0, 1.0, 0.0, 0.5, -0.25] + [ctx.rng.uniform(-1, 1) for _ in range(10)] + [1.0000001, -1.5, 2.0]:
-            got = K(u, beta)
+            try:
+                got = K(u, beta)
+                got = None if got is None else float(got)
+            except Exception:  # noqa  (e.g. the pure-Python kernel going complex outside the support)
+                got = None
             want = float(i0(beta * math.sqrt(1 - u * u))) if abs(u) <= 1 else 0.0
             ctx.case(("kb-fn", u, beta))
-            if got is None or abs(float(got) - want) > 2.5e-7 * abs(want) + 1e-300:
+            if got is None or not abs(got - want) <= 2.5e-7 * abs(want) + 1e-300:
                 ctx.fail("C07:kaiser_bessel_kernel", "Kaiser-Bessel kernel value differs from I0(beta*sqrt(1-u^2)) by more than 2.5e-7 relative",
                          dict(kb_u=u, kb_beta=beta), observed=None if got is None else float(got), expected=want, origin=origin)
                 ok = False
@@ -667,19 +988,67 @@ def search(ctx, budget):
         else:
             check_oracle(ctx, c, cc["x"], cc["via_linop"], "disagreement")
     check_kb_function(ctx, "search")
-    # 2. budgeted search: dyadic and generic-double coordinates, both kernels
+    # 2. budgeted search: dyadic and generic-double coordinates, both kernels, every hand-over variant
     n = int(500 * budget)
     for k in range(n):
         c = gen_case(rng, exact=(k % 2 == 0))
         x = gen_data(rng, c)
-        via = rng.random() < 0.4
+        via = rng.choice([False, False, False, True, True, "H", "seq"])
         cnt(ctx, c)
-        ctx.case(("oracle", model_line(c, x), via))
+        ctx.case(("oracle", model_line(c, x), via, vsig(c)))
+        check_oracle(ctx, c, x, via, "search")
+    # 3. samples (just) on the edge of the support: decimal widths / raster coordinates, one ulp beside an exact tie
+    for k in range(int(400 * budget)):
+        c = gen_raster_case(rng)
+        x = gen_data(rng, c)
+        via = rng.choice([False, False, True])
+        cnt(ctx, c)
+        ctx.case(("oracle-edge", model_line(c, x), via))
         check_oracle(ctx, c, x, via, "search")
     for k in range(int(40 * budget)):
-        c = gen_case(rng, small=True, exact=(k % 2 == 0))
-        ctx.case(("oracle-transpose", model_line(c, what="entries")))
+        c = gen_case(rng, small=True, exact=(k % 2 == 0)) if k % 4 else gen_raster_case(rng)
+        ctx.case(("oracle-transpose", model_line(c, what="entries"), vsig(c)))
         check_transpose(ctx, c, "search")
+    # 4. integer-dtype coordinates with a fractional width / Kaiser-Bessel beta (tracked under its own key)
+    for k in range(int(12 * budget)):
+        c = gen_case(rng, cmode="int", small=True)
+        if c["cdtype"] == "float64":
+            continue
+        if c["kernel"] == "spline" or k % 2:
+            c["width"] = ["s", q_of(rng.choice([Fraction(5, 2), Fraction(7, 2), Fraction(3, 2)]))]
+        else:
+            c["param"] = ["s", q_of(rng.choice([2.34, 9.14, 13.855]))]
+        c["int_args"] = False
+        x = gen_data(rng, c)
+        cnt(ctx, c)
+        ctx.count("coord:int-dtype+fractional-width/param")
+        ctx.case(("oracle-int-frac", model_line(c, x)))
+        check_oracle(ctx, c, x, False, "search", key="C07:int-coord-dtype:fractional-width-or-param")
+    # 5. coordinates 2^31 and more grid units away (tracked under its own key)
+    for k in range(int(8 * budget)):
+        c = beyond_int32_case(rng)
+        x = gen_data(rng, c)
+        cnt(ctx, c)
+        ctx.case(("oracle-beyond-int32", model_line(c, x)))
+        check_oracle(ctx, c, x, False, "search", key="C07:coord-magnitude>=2^31")
+
+
+def beyond_int32_case(rng):
+    """a plain 1-D / 2-D request whose coordinates lie 2^31 .. 2^40 grid units outside the grid (exactly representable)"""
+    c = gen_case(rng, small=True, cmode="f64")
+    while c["nd"] == 3:
+        c = gen_case(rng, small=True, cmode="f64")
+    nd, npts = c["nd"], int(np.prod(c["pts"]))
+    co = []
+    for j in range(npts):
+        for d in range(nd):
+            n = c["grid"][d]
+            co.append(q_of(Fraction(rng.choice([-1, 1]) * (8 * n * 2 ** rng.randint(31, 40) + rng.randint(0, 8 * n)), 8)))
+    c["coord"] = co
+    c["kinds"] = ["beyond-2^31"]
+    for k in ("xlayout", "clayout", "xdtype", "xscale"):
+        c.pop(k, None)
+    return c
 
 
 def basis_inputs(c):
@@ -699,9 +1068,14 @@ def replay(path):
     ctx = common.Ctx(PROPERTY, "quick", 0)
     if "kb_u" in cc:
         from scipy.special import i0
-        got = real_kernel("kaiser_bessel")(cc["kb_u"], cc["kb_beta"])
+        try:
+            got = real_kernel("kaiser_bessel")(cc["kb_u"], cc["kb_beta"])
+            got = None if got is None else float(got)
+        except Exception as e:  # noqa
+            print("kernel raised", repr(e))
+            got = None
         want = float(i0(cc["kb_beta"] * math.sqrt(1 - cc["kb_u"] ** 2))) if abs(cc["kb_u"]) <= 1 else 0.0
-        ok = got is not None and abs(float(got) - want) <= 2.5e-7 * abs(want) + 1e-300
+        ok = got is not None and abs(got - want) <= 2.5e-7 * abs(want) + 1e-300
         print("kernel:", got, "I0:", want)
     elif cc.get("transpose"):
         ok = check_transpose(ctx, cc["case"], "replay")
